@@ -57,6 +57,21 @@ def spec_eval(ops):
     return outs
 
 
+def spec_flags(ops):
+    """what remove / remove_all must return along an op sequence: whether something was actually removed"""
+    st = set()
+    out = ""
+    for tok in ops:
+        op = tok[0]
+        rs = [tuple(int(x) for x in r.split(":")) for r in tok[2:].split(",") if r]
+        if op in "aA":
+            st |= setof(rs)
+        elif op in "rR":
+            out += "1" if st & setof(rs) else "0"
+            st -= setof(rs)
+    return out
+
+
 def gen(ctx):
     rng = ctx.rng
     seqs = []
@@ -194,6 +209,18 @@ def run(ctx):
             ctx.violation("covharness aborted rc=%d on %r: %s" % (rc, lines[i], err[-400:]),
                           {"stream": "cov", "input": {"base": base, "ops": seqs[i]}, "stderr": err[-2000:]})
             return
+        flags_out = [l.split(" #")[1] if " #" in l else "" for l in impl_out]
+        impl_out = [l.split(" #")[0] for l in impl_out]
+        nflag = 0
+        for ops, fl in zip(seqs, flags_out):
+            want = spec_flags(ops)
+            if fl != want and nflag < 3:
+                nflag += 1
+                k = next((i for i, (x, y) in enumerate(zip(fl, want)) if x != y), 0)
+                ctx.violation("coverage.cc at base %d: ops %s: remove / remove_all #%d returns %s; something was %sremoved"
+                              % (base, " ".join(ops), k, fl[k:k + 1], "" if want[k:k + 1] == "1" else "not "),
+                              {"stream": "cov", "input": {"base": base, "ops": ops}, "got": fl, "expected": want,
+                               "theorem": "ZwVerif.C16 (mem_remove)"})
         model_out = common.run_model(["C " + l for l in lines]) if bi == 0 or ctx.replay else model0
         if bi == 0:
             model0 = model_out
